@@ -116,7 +116,7 @@ func (g *streamGen) pseudo() {
 // comments and no line break in line comments (the validator does not check comment contents;
 // that observation is handled separately).
 func CommentText(r *rand.Rand, multi bool) string {
-	words := []string{"a", " note ", "x=1", "//", "ünï", "日本", "\t", "*", "/", " ", "#", "\"q\"", "\\n"}
+	words := []string{"a", " note ", "x=1", "\u00fcn\u00ef", "\u65e5\u672c", "\t", "*", "/", " ", "#", "\"q\"", "\\n", "{", "]", "@", "|", "$x", "&m:"}
 	var sb strings.Builder
 	n := r.Intn(5)
 	for i := 0; i < n; i++ {
@@ -124,8 +124,13 @@ func CommentText(r *rand.Rand, multi bool) string {
 	}
 	s := sb.String()
 	if multi {
-		s = strings.ReplaceAll(s, "*/", "* /")
-		s = strings.ReplaceAll(s, "/*", "/ *")
+		// block comments nest in CTE: keep "/*" and "*/" out of the text, including the ones that
+		// would be formed with the delimiters the encoder adds.
+		for strings.Contains(s, "*/") || strings.Contains(s, "/*") {
+			s = strings.ReplaceAll(s, "*/", "* /")
+			s = strings.ReplaceAll(s, "/*", "/ *")
+		}
+		s = strings.Trim(s, "*/")
 		if r.Intn(3) == 0 {
 			s += "\nline2"
 		}
@@ -144,7 +149,7 @@ func (g *streamGen) newID() string {
 		case 2:
 			id = fmt.Sprintf("a.b-%d", g.nextID)
 		case 3:
-			id = fmt.Sprintf("ключ%d", g.nextID)
+			id = fmt.Sprintf("\u043a\u043b\u044e\u0447%d", g.nextID)
 		case 4:
 			id = fmt.Sprintf("%s%d", strings.Repeat("L", 1+g.r.Intn(40)), g.nextID)
 		default:
